@@ -1694,6 +1694,9 @@ def c10(scn):
             if out is None:
                 fails.append(("kernel_returns", " ".join(c.toks)))
                 continue
+            kn = c.O.get("knodes")
+            if out[:1] != ["err"] and kn is not None and (kn[0] != kn[1] or int(kn[0]) != (int(c.toks[2]) if int(c.toks[2]) > 1 else 1)):
+                fails.append(("kernel_node_data_lifecycle", "line %d: %s node data created, %s freed for %s thread(s)" % (c.li, kn[0], kn[1], c.toks[2])))
             if out[:1] != ["err"] and c.O.get("kvisits") != ["1"]:
                 fails.append(("kernel_applied_once_per_node", "%s: some node was visited zero or several times" % " ".join(c.toks)))
             if th <= 1:
